@@ -281,45 +281,50 @@ def plan_for(prop, tier, seed):
         P["scenarios"] = scenario_jobs(tier, lambda k: k["api"] in ("for_each", "try_for_each"))
         P["families"] = [fam("runs_exh", shards=12 if T else 6, sample=8 if T else 24, focus="conflict"), fam("runs_rand", shards=4, focus="conflict"),
                          fam("stream_exh", shards=6 if T else 3, sample=4 if T else 6), fam("stream_rand", shards=2),
-                         fam("builder_exh", shards=3, sample=2 if T else 24)]
+                         fam("builder_exh", shards=3, sample=2 if T else 24), fam("scale", shards=2, focus="types", tag="ty")]
         P["nontrivial_keys"] = ["handout_concurrent"]
         P["rule"] = ("every hand-out event (start / stream item) of every recorded trace is checked against all functions in flight; "
                      "non-trivial = distinct traces with a hand-out while another function is in flight (TLC-side counter)")
     elif prop == "C02":
         P["design"] = run_sweep(tier) + stream_sweep(tier)[:2]
         P["scenarios"] = scenario_jobs(tier)
-        P["families"] = run_fams + stream_fams
+        P["families"] = run_fams + stream_fams + [fam("scale", shards=2, focus="preds", tag="pr")]
         P["nontrivial_keys"] = ["handout_dependent"]
         P["rule"] = "non-trivial = distinct traces in which a function with at least one (transitive) dependency was handed out"
     elif prop == "C03":
         P["design"] = run_sweep(tier) + stream_sweep(tier)[:3]
         P["scenarios"] = scenario_jobs(tier)
-        P["families"] = run_fams + stream_fams + [fam("wide", shards=3)]
+        P["families"] = run_fams + stream_fams + [fam("wide", shards=3), fam("scale", shards=2, focus="preds", tag="pr"),
+                                                  fam("scale", shards=1, focus="roots", tag="ro")]
         P["nontrivial_keys"] = ["handout"]
         P["rule"] = "non-trivial = distinct traces with at least one hand-out (at-most-once checked at each; exactly-once at return / stream end of clean runs)"
     elif prop == "C04":
         P["design"] = run_sweep(tier) + run_live(tier)
         P["scenarios"] = scenario_jobs(tier)
-        P["families"] = run_fams + [fam("wide", shards=3)]
+        P["families"] = run_fams + [fam("wide", shards=3), fam("budget", shards=2, count=2000 if T else 300),
+                                    fam("budget_exh", shards=8 if T else 3, sample=1 if T else 8)]
         P["nontrivial_keys"] = ["idle", "return"]
         P["rule"] = "non-trivial = distinct traces with an idle point (Pending, not woken) or a return; every poll, return, cancel and panic event is checked"
     elif prop == "C05":
         P["design"] = stream_sweep(tier) + stream_live(tier)
-        P["families"] = [fam("stream_exh", shards=12 if T else 6, sample=1), fam("stream_rand", shards=4), fam("wide", shards=2, focus="stream")]
+        P["families"] = [fam("stream_exh", shards=12 if T else 6, sample=1), fam("stream_rand", shards=4), fam("wide", shards=2, focus="stream"),
+                         fam("scale", shards=1, focus="roots", tag="ro")]
         P["nontrivial_keys"] = ["stall_check_nontrivial", "dropref_while_pending"]
         P["rule"] = "non-trivial = distinct traces with a Pending poll while functions are unyielded, or an FnRef drop after a Pending poll"
     elif prop == "C06":
         P["design"] = run_sweep(tier, lambda k: k["api"] in ("for_each", "try_for_each")) + stream_sweep(tier)[:2] + builder_sweep(tier)[:1]
         P["scenarios"] = scenario_jobs(tier, lambda k: k["api"] in ("for_each", "try_for_each"))
         P["families"] = [fam("runs_exh", shards=12 if T else 6, sample=8 if T else 12, focus="eager"), fam("runs_rand", shards=4, focus="eager"),
-                         fam("builder_exh", shards=3, sample=2 if T else 12), fam("wide", shards=3, focus="eager")]
+                         fam("builder_exh", shards=3, sample=2 if T else 12), fam("wide", shards=3, focus="eager"),
+                         fam("scale", shards=2, focus="types", tag="ty")]
         P["nontrivial_keys"] = ["idle_eager_nontrivial", "build_data_edge"]
         P["rule"] = "non-trivial = distinct traces with an idle point of an unlimited, unsignalled, failure-free concurrent call with unstarted functions, or a build with data edges"
     elif prop == "C07":
         P["design"] = run_sweep(tier, lambda k: k["api"].startswith("try"))
         P["scenarios"] = scenario_jobs(tier, lambda k: k["api"].startswith("try"))
         P["families"] = [fam("runs_exh", shards=12 if T else 6, sample=8 if T else 8, focus="try"), fam("runs_rand", shards=4, focus="try"),
-                         fam("wide", shards=3, focus="try")]
+                         fam("wide", shards=3, focus="try"), fam("budget", shards=2, count=2000 if T else 300, focus="try"),
+                         fam("budget_exh", shards=8 if T else 3, sample=1 if T else 6, focus="try")]
         P["nontrivial_keys"] = ["return_failed"]
         P["rule"] = "non-trivial = distinct traces in which at least one function failed"
     elif prop == "C08":
@@ -333,13 +338,14 @@ def plan_for(prop, tier, seed):
         P["scenarios"] = scenario_jobs(tier, lambda k: k.get("strategy", "none") != "none")
         P["families"] = [fam("runs_exh", shards=12 if T else 6, sample=8 if T else 12, focus="int"), fam("runs_rand", shards=4, focus="int"),
                          fam("stream_exh", shards=6 if T else 3, sample=2 if T else 4, focus="int"), fam("stream_rand", shards=2, focus="int"),
-                         fam("wide", shards=3, focus="int")]
+                         fam("wide", shards=3, focus="int"), fam("budget", shards=2, count=2000 if T else 300, focus="int"),
+                         fam("budget_exh", shards=8 if T else 3, sample=1 if T else 6, focus="int")]
         P["nontrivial_keys"] = ["return_interruptible", "handout_after_signal"]
         P["rule"] = "non-trivial = distinct traces of an interrupting strategy in which a signal was sent or pending"
     elif prop == "C09":
         P["design"] = run_sweep(tier)
         P["scenarios"] = scenario_jobs(tier)
-        P["families"] = run_fams + [fam("wide", shards=3)]
+        P["families"] = run_fams + [fam("wide", shards=3), fam("scale", shards=3, focus="stop", tag="st")]
         P["nontrivial_keys"] = ["return"]
         P["rule"] = "non-trivial = distinct traces that returned a StreamOutcome"
     elif prop == "C10":
@@ -351,7 +357,8 @@ def plan_for(prop, tier, seed):
         P["rule"] = "non-trivial = distinct traces with hand-outs under a limit >= 1 (folds: limit 1)"
     elif prop in ("C11", "C12", "C13"):
         P["design"] = builder_sweep(tier)
-        P["families"] = builder_fams + ([fam("builder_calls", shards=3, sample=4)] if prop == "C12" else [])
+        P["families"] = (builder_fams + ([fam("builder_calls", shards=3, sample=4)] if prop == "C12" else [])
+                         + ([fam("scale", shards=2, focus="types", tag="ty")] if prop != "C13" else []))
         P["nontrivial_keys"] = {"C11": ["build_conflict"], "C12": ["build_conflict", "eq"], "C13": ["build_user_edges"]}[prop]
         P["rule"] = "non-trivial = distinct builder inputs with conflicting declarations (C11/C12), `==` comparisons (C12), or user edges (C13)"
     elif prop == "C14":
